@@ -34,11 +34,13 @@ import (
 	"github.com/jech/storrent/config"
 	"github.com/jech/storrent/hash"
 	"github.com/jech/storrent/httpclient"
+	"github.com/jech/storrent/mono"
 	"github.com/jech/storrent/peer"
 	"github.com/jech/storrent/protocol"
 	"github.com/jech/storrent/webseed"
 	rc "github.com/jech/storrent/zzverif/refcodec"
 	"github.com/jech/storrent/zzverif/vmap"
+	"github.com/jech/storrent/zzverif/vpool"
 	"github.com/jech/storrent/zzverif/vsel"
 )
 
@@ -104,6 +106,8 @@ type peerCfg struct {
 	Pex       uint8
 	Metadata  uint8
 	MetadataSize uint32
+	NoM          bool   // the extended handshake carries no "m" dictionary (only reqq etc.)
+	ExtPort      uint16 // listening port named in the extended handshake ("p"; 0 = absent)
 }
 
 type worldCfg struct {
@@ -145,6 +149,9 @@ type World struct {
 	readers   []*wreader
 	chans     []*wchan
 	evictions int
+	haveLive  map[uint32]bool // pieces whose completion has been announced to the loop and not revoked since
+	metaDelivered map[uint32]bool // magnet worlds: metadata blocks an honest remote has delivered with true content
+	access    map[uint32]mono.Time // C03 reference model (the code's own clock: whole seconds): when each piece was last asked for through Torrent.Request (zero: never; data that arrives does not count as an access)
 	wedged    bool // a step of the loop never returned
 	skip      bool // the transition needed a gated peer to answer: not enabled in this state
 	idle      time.Duration   // virtual time that has passed since the last transition that was not a pure time step
@@ -217,6 +224,7 @@ type remote struct {
 	unchokedByStorrent bool
 	pendingUp          []rc.Msg // our requests storrent may still answer
 	cancelledUp        []rc.Msg // requests we cancelled (a Fast peer acknowledges with a reject)
+	pexKnown           map[netip.AddrPort]bool // peers storrent has announced to this remote over PEX and not dropped since
 	told               map[uint32]bool // what storrent has told this remote it holds (Bitfield/Have/HaveAll/HaveNone/DontHave)
 	votedSize          uint32   // metadata size announced in the remote's extended handshake
 	goneBefore         bool     // the peer had already exited before the transition being judged
@@ -494,6 +502,7 @@ func newWorld(cfg worldCfg) *World {
 	t.rand = rand.New(rand.NewPCG(1, 2))
 	w.t = t
 	vmap.SetDescending(cfg.MapDesc)
+	vpool.ResetStats()
 	if cfg.Gates {
 		vsel.SetHook(w.selHook)
 	} else {
@@ -518,6 +527,7 @@ func (w *World) storePiece(i uint32) {
 	if !done || err != nil {
 		panic(fmt.Sprintf("storePiece(%d): %v %v", i, done, err))
 	}
+
 }
 
 func (w *World) addPeer(i int, pc peerCfg) {
@@ -545,7 +555,14 @@ func (w *World) addPeer(i int, pc peerCfg) {
 // sendExt0 sends the remote's extended handshake, announcing the given metadata size.
 func (r *remote) sendExt0(metadataSize uint32) {
 	pc := r.cfg
-	m := rc.Msg{Kind: rc.Ext0, M: map[string]uint8{}, HasM: true, ReqQ: uint32(pc.ReqQ), MetadataSize: metadataSize}
+	m := rc.Msg{Kind: rc.Ext0, M: map[string]uint8{}, HasM: true, ReqQ: uint32(pc.ReqQ), MetadataSize: metadataSize, ExtPort: pc.ExtPort}
+	if pc.NoM {
+		m.M, m.HasM = nil, false
+		r.send(m)
+		r.sentExt0 = true
+		r.votedSize = metadataSize
+		return
+	}
 	if pc.DontHave != 0 {
 		m.M["lt_donthave"] = pc.DontHave
 	}
@@ -646,8 +663,23 @@ func (w *World) handle(e peer.TorEvent) {
 		return
 	}
 	w.eventsHandled++
-	if h, ok := e.(peer.TorHave); ok && h.Have {
-		defer func() { w.haves[h.Index]++ }()
+	if h, ok := e.(peer.TorHave); ok {
+		if h.Have {
+			if w.cfg.AutoDrain && !w.cfg.Magnet && int(h.Index) < w.g.npieces() {
+				if !w.t.Pieces.Complete(h.Index) {
+					w.problem("C10", "C10/completion-announced-for-unverified-piece", "the torrent was told that piece %d is complete (waiters are woken, Have is broadcast) but the piece is not verified", h.Index)
+				} else if w.haveLive[h.Index] {
+					w.problem("C10", "C10/completion-notified-twice", "the completion of piece %d was announced a second time without the piece having been dropped in between", h.Index)
+				}
+			}
+			if w.haveLive == nil {
+				w.haveLive = map[uint32]bool{}
+			}
+			w.haveLive[h.Index] = true
+			defer func() { w.haves[h.Index]++ }()
+		} else {
+			delete(w.haveLive, h.Index)
+		}
 	}
 	var err error
 	name := fmt.Sprintf("%T", e)
@@ -1127,7 +1159,29 @@ func (r *remote) onFrame(m rc.Msg, raw []byte) {
 		if m.MsgType == 0 {
 			r.metaReqs = append(r.metaReqs, m.MPiece)
 		}
-	case rc.Interested, rc.NotInterested, rc.KeepAlive, rc.Port, rc.ExtPex:
+	case rc.ExtPex:
+		r.gotOther = true
+		if r.pexKnown == nil {
+			r.pexKnown = map[netip.AddrPort]bool{}
+		}
+		for _, d := range m.Dropped {
+			if !r.pexKnown[d.Addr] {
+				w.problem("C11", "C11/pex-world/drop-unannounced", "a PEX message to remote %d drops %v, which had not been announced to it", r.idx, d.Addr)
+			}
+			delete(r.pexKnown, d.Addr)
+		}
+		for _, a := range m.Added {
+			if r.pexKnown[a.Addr] {
+				w.problem("C11", "C11/pex-world/announced-twice", "a PEX message to remote %d announces %v, which it already knows from an earlier one", r.idx, a.Addr)
+			}
+			for k := range r.pexKnown {
+				if k.Addr() == a.Addr.Addr() {
+					w.problem("C11", "C11/pex-world/peer-announced-under-two-addresses", "remote %d is told about %v although the same peer is already announced to it as %v: when it leaves, at most one of them will be dropped", r.idx, a.Addr, k)
+				}
+			}
+			r.pexKnown[a.Addr] = true
+		}
+	case rc.Interested, rc.NotInterested, rc.KeepAlive, rc.Port:
 		if m.Kind != rc.KeepAlive {
 			r.gotOther = true
 		}
@@ -1451,6 +1505,10 @@ func (w *World) apply(tr string) bool {
 				end = len(w.info)
 			}
 			r.send(rc.Msg{Kind: rc.ExtMetadata, ID: protocol.ExtMetadata, MsgType: 1, MPiece: pc, TotalSize: uint32(len(w.info)), HasTotal: true, Data: append([]byte{}, w.info[off:end]...)})
+			if w.metaDelivered == nil {
+				w.metaDelivered = map[uint32]bool{}
+			}
+			w.metaDelivered[pc] = true
 		}
 		r.metaReqs = nil
 	case "vote": // vote:<remote>:<size|true>  the remote's (first) extended handshake announces a metadata size
@@ -1630,6 +1688,18 @@ func (w *World) apply(tr string) bool {
 		s := int64(idx) * int64(w.g.PSize)
 		w.t.Pieces.AddData(idx, 0, append([]byte{}, w.truth[s:s+int64(w.g.pieceLen(idx))]...), ^uint32(0))
 		w.call("finalisePiece", func() { finalisePiece(w.t, idx) })
+	case "dupcomplete", "dupfail": // the piece's last block arrives from two sources: two verifications of the same piece overlap
+		idx := uint32(arg(1))
+		if w.t.Pieces.Complete(idx) {
+			return false
+		}
+		s := int64(idx) * int64(w.g.PSize)
+		d := append([]byte{}, w.truth[s:s+int64(w.g.pieceLen(idx))]...)
+		if f[0] == "dupfail" {
+			d[0] ^= 0xFF
+		}
+		w.t.Pieces.AddData(idx, 0, d, ^uint32(0))
+		w.call("finalisePiece", func() { finalisePiece(w.t, idx); finalisePiece(w.t, idx) })
 	case "fail": // a corrupt piece is hashed and discarded
 		idx := uint32(arg(1))
 		if w.t.Pieces.Complete(idx) {
@@ -1702,6 +1772,48 @@ func (w *World) apply(tr string) bool {
 			return false
 		}
 		w.evictions++
+	case "treq": // treq:<piece>:<prio>  a consumer asks for the piece through the exported Torrent.Request (which notes the access)
+		idx := uint32(arg(1))
+		if int(idx) >= n {
+			return false
+		}
+		done := make(chan struct{})
+		go func() {
+			w.t.Request(idx, int8(arg(2)), true, false)
+			close(done)
+		}()
+		synctest.Wait()
+		w.deliver(-1)
+		<-done
+		if !w.t.Pieces.Complete(idx) {
+			w.consumers[fmt.Sprintf("%d/%d", idx, arg(2))]++
+		}
+		if w.access == nil {
+			w.access = map[uint32]mono.Time{}
+		}
+		w.access[idx] = mono.Now()
+	case "evictone": // an eviction pass that has to free at least one byte: the least recently accessed piece goes first
+		before := map[uint32]bool{}
+		for i := 0; i < n; i++ {
+			if w.t.Pieces.Complete(uint32(i)) {
+				before[uint32(i)] = true
+			}
+		}
+		if len(before) == 0 {
+			return false
+		}
+		w.t.Pieces.Expire(w.t.Pieces.Bytes()-1, nil, func(i uint32) { w.t.Have(i, false) })
+		w.evictions++
+		for e := range before {
+			if w.t.Pieces.Complete(e) {
+				continue
+			}
+			for k := range before {
+				if w.t.Pieces.Complete(k) && w.access[k].Before(w.access[e]) {
+					w.problem("C03", "C03/eviction-not-lru", "piece %d (last asked for in second %d) was evicted while piece %d (last asked for in second %d, i.e. earlier) was kept", e, w.access[e], k, w.access[k])
+				}
+			}
+		}
 	case "cmd": // cmd:<remote>:<chunk>  the scheduler commands this peer to fetch one more block (real request())
 		c := uint32(arg(2))
 		if r.exited() || int(c) >= w.g.nchunks() || !r.adv[c/w.g.cpp()] || w.t.Pieces.Complete(c/w.g.cpp()) {
@@ -1806,6 +1918,9 @@ func (r *remote) revoked() {
 // oracles evaluated at quiescent states
 
 func (w *World) checkInvariants() {
+	if _, _, dbl := vpool.Stats(); dbl > 0 {
+		w.problem("C01", "C01/block-buffer-released-twice", "a 16 KiB block buffer was handed back to protocol's buffer pool while it was already in it (%d times): its next two users share memory, e.g. a verified block waiting to be written to a peer and an unverified block being received", dbl)
+	}
 	t := w.t
 	if w.loopDead {
 		return
@@ -1898,6 +2013,25 @@ func (w *World) checkInvariants() {
 // checkMetadata: C12 safety.  Metadata is complete only if authentic and sane.
 func (w *World) checkMetadata() {
 	t := w.t
+	if w.cfg.Magnet && !t.InfoComplete() && w.cfg.InfoKind == "" && w.corruptions == 0 && !w.loopDead && !w.inTransit() {
+		// only authentic blocks were ever sent, every block has been delivered
+		// and handled, every vote names the true size: the metadata is complete
+		nb := (len(w.info) + wchunk - 1) / wchunk
+		all := nb > 0
+		for i := 0; i < nb; i++ {
+			if !w.metaDelivered[uint32(i)] {
+				all = false
+			}
+		}
+		for s := range t.infoSizeVotes {
+			if s != uint32(len(w.info)) {
+				all = false
+			}
+		}
+		if all {
+			w.problem("C12", "C12/authentic-metadata-not-accepted", "honest peers have delivered every block of the true info dictionary (%d bytes, %d blocks), nothing else was ever sent, and the metadata is not complete", len(w.info), nb)
+		}
+	}
 	if !w.cfg.Magnet || !t.InfoComplete() {
 		return
 	}
@@ -2182,6 +2316,31 @@ func (w *World) canon() string {
 			fmt.Fprintf(&sb, " cu=%v cx=%v rs=%v", r.cancelledUp, r.crossedUp, r.resolvedStalled)
 		}
 		sb.WriteString("|")
+	}
+	if w.access != nil {
+		// only the order of the access times matters to the oracle
+		type at struct {
+			i uint32
+			t mono.Time
+		}
+		var l []at
+		for i, t := range w.access {
+			l = append(l, at{i, t})
+		}
+		sort.Slice(l, func(a, b int) bool {
+			if l[a].t != l[b].t {
+				return l[a].t < l[b].t
+			}
+			return l[a].i < l[b].i
+		})
+		sb.WriteString("|acc")
+		for k, x := range l {
+			eq := ""
+			if k > 0 && x.t == l[k-1].t {
+				eq = "="
+			}
+			fmt.Fprintf(&sb, " %s%d", eq, x.i)
+		}
 	}
 	var cons []string
 	for k, v := range w.consumers {
